@@ -26,6 +26,11 @@ const (
 	Fresh
 	LIFO
 	LIFOPoison
+	// FreshPoison: Get always allocates, Put scribbles 0xDD over the object and drops it.
+	// No object is ever shared, so parallel harness workers cannot disturb each other, and any
+	// use of a buffer after its Put reads poison deterministically. This is the default of the
+	// sequential property binaries.
+	FreshPoison
 )
 
 var (
@@ -134,7 +139,7 @@ func (p *Pool) Get() interface{} {
 			h("post", "get", p, x)
 		}
 		return x
-	case Fresh:
+	case Fresh, FreshPoison:
 		// always allocate
 	default:
 		if n := len(p.free); n > 0 {
@@ -167,6 +172,9 @@ func (p *Pool) Put(x interface{}) {
 		p.real.Put(x)
 	case Fresh:
 		mu.Unlock()
+	case FreshPoison:
+		mu.Unlock()
+		Poison(x)
 	case LIFO:
 		p.free = append(p.free, x)
 		mu.Unlock()
